@@ -387,6 +387,29 @@ func checkC19(c *h.Check) {
 			}
 		}
 	}
+	// ---- Part A2: the same agreement under -tags: packages whose set of injectors depends on a build tag ----
+	{
+		var tcases []*h.Case
+		for kind, name := range map[int]string{kS1: "tag-adds-injector", kFT: "tag-adds-broken-injector", kS2: "no-tag-dependence", kF: "fails-anyway"} {
+			files := map[string]string{}
+			for p, cnt := range slotFiles("p", kind) {
+				files[strings.TrimPrefix(p, "p/")] = cnt
+			}
+			tcases = append(tcases, &h.Case{ID: "C19/check-tags/" + name, Files: files, Judge: judgeCheckAgainstGen(false)})
+		}
+		for _, cs := range tcases {
+			c.NoteProgram(cs.Files)
+		}
+		c.R.ExtraGen, c.R.ExtraRO = []string{"-tags", "t"}, []string{"-tags", "t"}
+		tres := c.JudgeAll(tcases)
+		c.R.ExtraGen, c.R.ExtraRO = nil, nil
+		for _, r := range tres {
+			if r != nil && r.Root().Failed {
+				genRej++
+			}
+		}
+		cases = append(cases, tcases...)
+	}
 	// ---- Part B: show ----
 	c.R.AlsoCheck = false
 	c.R.AlsoShow = true
@@ -446,7 +469,7 @@ func checkC19(c *h.Check) {
 	c.Coverage["states"] = c.DistinctPrograms()
 	c.Coverage["transitions"] = 2*len(cases) + len(scases)
 	c.Coverage["traces_validated_against_impl"] = len(cases) + len(scases)
-	c.Coverage["rule"] = "A: the accepted and rejected programs of the C05, C06, C08, C09, C11, C12, C13, C20 quick families and of C01's accessibility/aliased-import/layout families (quick tier: the graph families of C06/C08 up to 2 nodes) (every rejection reason represented) plus accepted programs carrying an unused ill-formed top-level set of each kind: wire gen and wire check run on the same tree; check must fail exactly when gen fails for a package of the case or a top-level set is ill-formed, every error class gen reports must be reported by check, and check must not change the tree. B: all DAGs on <=4 nodes with node kinds {function, external input, struct pointer/value, field, pointer-to-field, binding, value} (deviation bound 2, thorough 2 on all), nesting depth 0-2, lib-package split, one named set per node (also wrapped in inline NewSet calls): wire show's stdout (plain binary, and the map-order-instrumented binary under the reverse and rotate policies, which must print the same) is parsed and compared with the model: every top-level set listed with the named sets it includes, every provided type grouped under exactly its transitive set of external input types, injectors listed. Distinct = distinct rendered source."
+	c.Coverage["rule"] = "A: the accepted and rejected programs of the C05, C06, C08, C09, C11, C12, C13, C20 quick families and of C01's accessibility/aliased-import/layout families (quick tier: the graph families of C06/C08 up to 2 nodes) (every rejection reason represented) plus accepted programs carrying an unused ill-formed top-level set of each kind: wire gen and wire check run on the same tree; check must fail exactly when gen fails for a package of the case or a top-level set is ill-formed, every error class gen reports must be reported by check, and check must not change the tree; the same with -tags on packages whose injectors depend on the tag. B: all DAGs on <=4 nodes with node kinds {function, external input, struct pointer/value, field, pointer-to-field, binding, value} (deviation bound 2, thorough 2 on all), nesting depth 0-2, lib-package split, one named set per node (also wrapped in inline NewSet calls): wire show's stdout (plain binary, and the map-order-instrumented binary under the reverse and rotate policies, which must print the same) is parsed and compared with the model: every top-level set listed with the named sets it includes, every provided type grouped under exactly its transitive set of external input types, injectors listed. Distinct = distinct rendered source."
 	if len(cases) > 0 {
 		c.Samples = append(c.Samples, map[string]interface{}{"case": cases[len(cases)/2].ID, "gen_diags": results[len(cases)/2].Root().Diags, "check_diags": results[len(cases)/2].CheckDiags})
 	}
